@@ -300,14 +300,14 @@ _WHY = {
 }
 
 
-def _duck_typed_kernels(ctx):
+def _duck_typed_kernels(ctx, rule="C03.duck-typed-kernels"):
     """every compute kernel reachable from a dispatch table stays in the duck-typed fragment the package documents"""
     import types
 
     from ..loader import fn_ast, fn_env, fn_where, link
     from ..entries import all_entries
 
-    ctx.rule("C03.duck-typed-kernels",
+    ctx.rule(rule,
              "every function reachable from a dispatch_map entry uses only constructs that mean the same for Python numbers, NumPy arrays and Awkward arrays "
              "(the restriction stated in vector/_compute/*/__init__.py): assignments to plain names and one return; + - * / % ** & |, unary minus, single "
              "comparisons, calls with the values as arguments; no augmented assignment, ~, not, and/or, conditional, chained comparison, loop or indexing")
@@ -349,7 +349,7 @@ def _duck_typed_kernels(ctx):
                     seen.add(tgt)
                     todo.append(tgt)
         name = f"{(fn.__module__ or '').replace('vector._compute.', '')}.{fn.__qualname__}"
-        ctx.ob("C03.duck-typed-kernels", name, not bad,
+        ctx.ob(rule, name, not bad,
                "; ".join(f"line {ln}: {k} - {why}" for ln, k, why in bad[:3]), {"constructs": [[ln, k] for ln, k, _ in bad]}, fn_where(fn))
     ctx.anchor("compute kernels examined", n, 2400)
 
@@ -372,9 +372,23 @@ def _value_preserving_fill(ctx):
             for st in cnode.body:
                 if isinstance(st, ast.FunctionDef) and st.name == "_wrap_result":
                     n += 1
-                    bad = [(c.lineno, unparse(c.func)) for c in ast.walk(st) if isinstance(c, ast.Call) and unparse(c.func) in _LIKE_FILLS]
+                    bad = [(c.lineno, f"{unparse(c.func)}(template, value) casts the value to the template's dtype")
+                           for c in ast.walk(st) if isinstance(c, ast.Call) and unparse(c.func) in _LIKE_FILLS]
+                    for sub in ast.walk(st):
+                        # ak.broadcast_arrays(first, x)[k]: the broadcast *value* is the member at x's own position
+                        if isinstance(sub, ast.Subscript) and isinstance(sub.value, ast.Call) and unparse(sub.value.func) in ("ak.broadcast_arrays", "awkward.broadcast_arrays"):
+                            args = [unparse(a) for a in sub.value.args]
+                            idx = sub.slice.value if isinstance(sub.slice, ast.Constant) else None
+                            if not (isinstance(idx, int) and 0 <= idx < len(args) and args[idx] != "first" and "first" in args):
+                                bad.append((sub.lineno, f"`{unparse(sub)[:70]}` selects the reference array, not the broadcast value"))
+                        # a record / scalar result is promoted to a length-1 array with ak.Array([x]) (or a length-1 slice of the record's layout)
+                        if isinstance(sub, ast.Call) and unparse(sub.func) in ("ak.Array", "awkward.Array") and len(sub.args) == 1:
+                            a0 = sub.args[0]
+                            ok_form = (isinstance(a0, ast.List) and len(a0.elts) == 1) or "layout" in unparse(a0)
+                            if not ok_form:
+                                bad.append((sub.lineno, f"`{unparse(sub)[:70]}`: a non-array result is promoted with ak.Array([x]) so that an array-valued x keeps its own length as one more level"))
                     ctx.ob("C03.value-preserving-fill", f"{cname}._wrap_result", not bad,
-                           "; ".join(f"line {ln}: {fn}(template, value) casts the value to the template's dtype" for ln, fn in bad[:3]),
+                           "; ".join(f"line {ln}: {why}" for ln, why in bad[:3]),
                            {"calls": bad}, f"{relp}:{st.lineno}")
     ctx.anchor("_wrap_result implementations", n, 10)
 
